@@ -240,6 +240,11 @@ func (it *TxnIterator) advance() {
 			}
 		}
 		if !it.materializeEntry(entry, cf, userKey, version) {
+			if !it.opt.Reverse {
+				// The newest visible version is deleted or expired: remember the key so
+				// that its older versions stay hidden, exactly as a point read hides them.
+				it.lastKey = append(it.lastKey[:0], userKey...)
+			}
 			it.iitr.Next()
 			continue
 		}
